@@ -158,12 +158,16 @@ def run(ck):
             "Transport::handleWriteQueue moves a queued write into toWrite[fd] only on the isPeerFd(fd) edge: a write for a connection "
             "that is already gone must not re-create per-descriptor state that the next user of the number would inherit", 1)
     hwq = lib.single(prog, T + "handleWriteQueue")
-    pushes = [e for e in hwq.calls(lambda e: e.base_callee() == "std::deque::push_back")]
-    live = [b for b in hwq.blocks.values() if b.term and b.term.get("k") == "if" and ("c:" + T + "isPeerFd") in (b.term.get("refs") or [])]
-    ck.require(pushes, "push into toWrite not found in handleWriteQueue")
+    reg9 = lib.region(prog, hwq, within=lambda g: g.base.startswith(T) and g.base != T + "asyncWriteImpl")
+    pushes = [e for g in reg9 for e in g.calls(lambda e: e.base_callee() == "std::deque::push_back" and "WriteEntry" in (e.get("callee") or ""))]
+    ck.require(pushes, "push into toWrite not found in handleWriteQueue or its helpers")
+
+    def live_edges(fn_):
+        return [(b.id, 1 if b.term.get("neg") else 0) for b in fn_.blocks.values()
+                if b.term and b.term.get("k") in ("if", "land", "cond") and ("c:" + T + "isPeerFd") in (b.term.get("leafrefs") or b.term.get("refs") or [])]
     for e in pushes:
-        ok = any(cfg.edge_dominates(hwq, b.id, 1 if b.term.get("neg") else 0, e) for b in live)
-        ck.ob("C08-R9", "handleWriteQueue/push-only-for-live-peer", ok, e.loc, hwq,
+        ok = lib.guard_dominates(prog, e, live_edges)
+        ck.ob("C08-R9", "handleWriteQueue/push-only-for-live-peer", ok, e.loc, e.func,
               "push_back is reached only on the isPeerFd(fd) edge" if ok else
               "a write is moved into toWrite[fd] without knowing that fd still is a peer: state for a closed connection is re-created and leaks to "
               "the next connection with that descriptor number")
